@@ -91,9 +91,9 @@ def run(chk):
     chk.assume_note('height >= 1 with history[height-1] present (I-HIST); the height-0 batch (which seals a clone to '
                     'obtain a header) is outside this check')
     for shape in shapes_for(chk.tier):
-        one_shape(chk, it, shape)
+        chk.guard(one_shape, chk, it, shape)
     for shape in kernel_shapes_for(chk.tier):
-        input_kernel(chk, it, shape)
+        chk.guard(input_kernel, chk, it, shape)
 
 
 def one_shape(chk, it, shape):
